@@ -4,7 +4,7 @@ Fault injector over valid generated documents (harness/c14_docs.py) -> real `sel
 Lean model (Earverif.Validate.selectItems through c14driver) + direct predicates on the real code alone."""
 import itertools
 
-from .common import Spec, Driver
+from .common import Spec, Driver, GEN, write_if_changed
 from . import c14_docs as D
 
 TYPE_CODE = {"DirectSpeakers": 1, "Matrix": 2, "Objects": 3, "HOA": 4, "Binaural": 5}
@@ -318,7 +318,9 @@ class C14(Spec):
         "validateAvsReferences_noInt", "avs_refs_unique", "avsSelected_noInt", "avs_assert_total",
         "hoa_reachable_one_block", "hoaParams_ok_nonempty", "selectComplementary_noInt",
         "hoa_empty_pack_is_adm", "unsupported_type_is_adm", "coefficient_without_input_is_adm",
-        "encode_without_refs_is_adm", "shared_avs_defeats_validation")) + (
+        "encode_without_refs_is_adm", "shared_avs_defeats_validation",
+        # the raise-site table against Gen/C14_Sites.lean (regenerated from the sources by extract)
+        "sites_nodup_count", "sites_gen_nodup", "sites_match")) + (
         "Earverif.PackAlloc.allocImpl_filter", "Earverif.PackAlloc.allocatePacks_dropEmpty",
         "Earverif.PackAlloc.selectPackMapping_dropEmpty")
     trusted_base = (
@@ -343,10 +345,16 @@ class C14(Spec):
         "graph walks in the model use fuel = number of elements (+1/+2); equality with Python's unbounded recursion "
         "on documents that passed the loop validations is not proved (checked by the correspondence)",
         "audioProgramme ids increase with list position (generate_ids), so min(key=id) is the first programme",
-        "the raise-site table AdmKind.site is compared on every run with the raise statements found in the sources of "
-        "validate.py, select_items.py, utils.py, hoa.py, matrix.py, pack_allocation.py, main_elements.py and "
-        "block_formats.py by ast (harness/c14_docs.code_sites); four raise statements there are outside item selection "
-        "(listed with reasons in c14_docs.SITES_NOT_MODELLED)",
+        "the raise statements of validate.py, select_items.py, utils.py, hoa.py, matrix.py, pack_allocation.py, "
+        "main_elements.py and block_formats.py are found by ast (harness/c14_docs.code_sites) and written to "
+        "Gen/C14_Sites.lean on every run; theorem sites_match (decide +kernel) checks that they are exactly the sites "
+        "of the model's hand-kept AdmKind.all / AdmKind.site (the same comparison is still made in Python on the "
+        "driver's `sites` line); three raise statements there are outside item selection (listed with reasons in "
+        "c14_docs.SITES_NOT_MODELLED and in the generated file); trusted: the ast walk itself and the ordinal "
+        "numbering of the raise statements inside a function",
+        "the pack allocator inside the model is a pure three-valued Outcome: it cannot produce an internal error by "
+        "construction (the real allocator's tracks[0] / possible[0] are syntactically guarded); fuel exhaustion of "
+        "the graph walks returns .ok, sufficiency of the fuel is not proved",
     )
     assumptions = (
         "documents are closed object graphs: every referenced element is registered in the ADM (wellScoped) and an "
@@ -375,6 +383,43 @@ class C14(Spec):
 
     ORDER_SENSITIVE = ("nestedpack", "chna_nested", "matrix_direct", "matrix_decode", "matrix_encdec", "matrix_pre",
                        "nested", "comp", "hoa_nested")
+
+    # ---- tables regenerated from /repo ----
+
+    def extract(self, ctx):
+        """the `raise` statements of the item-selection modules (found with `ast`: c14_docs.code_sites) ->
+        lean/Earverif/Gen/C14_Sites.lean; Props/C14 `sites_match` (decide +kernel) re-checks on every run that the
+        model's hand-kept table `AdmKind.all.map AdmKind.site` has exactly these sites"""
+        code = D.code_sites()
+        sites = sorted(q for q in code if q not in D.SITES_NOT_MODELLED)
+        out = ["/- GENERATED by harness/c14.py (c14_docs.code_sites: ast over the sources in /repo) - do not edit. -/",
+               "namespace Earverif.Gen.C14", "",
+               "/-! `(qualified function name, ordinal of the raise statement in it)` for every `raise` statement of",
+               "%s" % ", ".join(D.SITE_FILES),
+               "except the ones listed in `excluded` (harness/c14_docs.SITES_NOT_MODELLED). -/", ""]
+        chunks = [sites[i:i + 16] for i in range(0, len(sites), 16)]
+        for n, ch in enumerate(chunks):
+            out.append("def sites_%d : List (String × Nat) := [%s]" % (
+                n, ", ".join('("%s", %d)' % q for q in ch)))
+        out.append("")
+        out.append("/-- every modelled raise site of the sources, sorted -/")
+        out.append("def sites : List (String × Nat) := %s" % (" ++ ".join("sites_%d" % n for n in range(len(chunks))) or "[]"))
+        out.append("")
+        out.append("/-- the exception class each of them raises (same order) -/")
+        for n, ch in enumerate(chunks):
+            out.append("def classes_%d : List String := [%s]" % (n, ", ".join('"%s"' % code[q] for q in ch)))
+        out.append("def classes : List String := %s" % (" ++ ".join("classes_%d" % n for n in range(len(chunks))) or "[]"))
+        out.append("")
+        out.append("/-- raise statements in those files that item selection cannot reach / that are not failures:")
+        for q in sorted(D.SITES_NOT_MODELLED):
+            out.append("  %s:%d (%s) -- %s" % (q[0], q[1], code.get(q, "gone"), D.SITES_NOT_MODELLED[q]))
+        out.append("-/")
+        out.append("def excluded : List (String × Nat) := [%s]" % ", ".join(
+            '("%s", %d)' % q for q in sorted(D.SITES_NOT_MODELLED) if q in code))
+        out.append("")
+        out.append("end Earverif.Gen.C14")
+        write_if_changed(GEN + "/C14_Sites.lean", "\n".join(out) + "\n")
+        ctx.count("raise-sites:generated", len(sites))
 
     # ---- case stream ----
 
@@ -718,8 +763,10 @@ REGISTRY = dict(
     "graph (Matrix packs, alternativeValueSets and all parameter values included) and every programme/complementary "
     "selection, that the model of select_rendering_items never ends in a non-ADM exception, by a chain of 'after "
     "_validate_X succeeded, step Y is total' lemmas -- and since round 7 this covers the failure paths' own "
-    "operations: every raise statement is one constructor (62 raise sites, table compared with the sources by ast on "
-    "every run) carrying a structured diagnostic Msg with every .id / .type.name / len() its message reads, and every "
+    "operations: every raise statement is one constructor (63 kinds on 62 raise sites: sites_nodup_count; the raise "
+    "statements found in the sources by ast are regenerated into Gen/C14_Sites.lean on every run and sites_match, "
+    "decide +kernel, proves they are exactly the model's sites; three raise statements are excluded with reasons in "
+    "c14_docs.SITES_NOT_MODELLED) carrying a structured diagnostic Msg with every .id / .type.name / len() its message reads, and every "
     "read that can fail while a message is built is a step of the model: input_channel.id, acf.id / apf.id / "
     "audioPackFormat.encodePackFormats in the reasons of possible_reference_errors (diagnostics_total), "
     "loop_exception's .index() and diamond_exception's two max() (multitree_diagnostics_total, mtDfs_inv: both paths "
@@ -736,8 +783,10 @@ REGISTRY = dict(
     "outcome is its rendering, items returned => exactly one valid assignment (valid = meets the allocate_packs "
     "docstring and uses no channel-less pack: effProblem_valid_iff). empty_pack_outcome(_regular): an audioObject "
     "that references an audioPackFormat all of whose allocation packs are empty gets exactly the Conflicting ADM "
-    "error. _partial only because attrs validators (cross-class references, None ids), recursion depth and str() of "
-    "the exception are outside the model. The model is tied to the code on every run by a fault injector (every "
+    "error. _partial because attrs validators (cross-class references, None ids), recursion depth and str() of "
+    "the exception are outside the model, because the allocator inside the model is a pure 3-valued Outcome (no "
+    "internal error by construction, not by proof: the real tracks[0] / possible[0] sites are syntactically "
+    "guarded), and because fuel exhaustion of the graph walks returns .ok with sufficiency of the fuel unproved. The model is tied to the code on every run by a fault injector (every "
     "single fault at every site, declaration-order variants, sampled double faults on 21 kinds of generated "
     "documents in both referencing styles, all inside the model) comparing items count / raise-site kind AND raise "
     "site (function, ordinal of the raise statement, from the traceback) / the structured diagnostic (ids in the "
